@@ -664,9 +664,57 @@ Section Compose.
     split; [reflexivity|]. rewrite Forall_forall in Fc. split; [|apply (Fc (add_fti oti L q)); apply in_map; exact Hq].
     unfold wire_pkts in Hq. apply in_map_iff in Hq. destruct Hq as (q0 & <- & _). reflexivity.
   Qed.
+
+  (* D44: the same without the premise "no close-object flag before the FDT packet": a flag on a packet of [pre] is
+     ignored (the object has no writer yet) *)
+  Theorem session_late_join_general_any_flag_before_fdt window closable debug fti pre : (1 <= window)%nat ->
+    Forall (fun p => a_toi p = toi) pre ->
+    Forall (fun p => genuine_pkt oti content p = true) pre ->
+    Forall (fun p => a_oti p = Some (oti, L) /\ a_cenc p = None) pre ->
+    let '(_, r, cx) := recv_run E fdt_oracle rcfg recv0
+                         (map (fun p => RvPush p nowr)
+                              (pre ++ pf :: obj_wire rep raptor_src cfg m window closable debug content fti)) ctx0 in
+    session_meta_delivered cfg complete now m content rcfg r cx.
+  Proof.
+    intros Hw Tp Gp Pp. destruct (obj_wire_facts window closable debug fti Hw) as (Hnok & T & G & Rec & body & lst & Ew & Fb & Cl).
+    cbv zeta in Hnok, T, G, Rec, Ew. set (w := obj_wire rep raptor_src cfg m window closable debug content fti) in *.
+    pose proof HS as (_ & _ & _ & _ & _ & _ & _ & _ & _ & Htoi & _).
+    pose proof HR as (Hwa & Hws & Hmd5 & Hmax & Hnb & _).
+    assert (Cf : close_flag_ok_after (recoverable oti L) pre w).
+    { rewrite Ew. apply close_flag_ok_after_last; [exact Fb|]. rewrite <- Ew. exact (Rec pre). }
+    pose proof (session_fdt_late_delivers_any_flag_before_fdt E fdt_oracle rcfg oti content toi (obj_md5 m) nowr pf id (nocode_roti (c_oti cfg))
+                  (fdt_doc cfg complete now m) (sess_inst cfg now m) pre w Hnok Htoi sess_pf_ok sess_oracle sess_live sess_entry
+                  Hwa Hws Hmd5 Hmax Hnb (proj2 (Forall_app _ _ _) (conj Tp T)) (proj2 (Forall_app _ _ _) (conj Gp G))
+                  Pp Cf (Rec pre)) as D.
+    destruct (recv_run E fdt_oracle rcfg recv0 (map (fun p => RvPush p nowr) (pre ++ pf :: w)) ctx0) as [[xs r] cx].
+    split; [exact D|]. destruct D as (_ & Hex & _). destruct (sess_meta cx Hex) as [P M].
+    split; [exact P|]. split; [exact sess_oracle|exact M].
+  Qed.
+
+  (* the receiver joins at ANY packet offset j of a transfer with in-band FTI - carousel or LAST (closable1: the
+     close-object flag on its last packet) -, then the FDT packet, then one whole further transfer *)
+  Theorem session_late_join_any_flag_before_fdt window1 closable1 debug1 (j : nat) window closable debug fti :
+    (1 <= window1)%nat -> (1 <= window)%nat ->
+    let '(_, r, cx) := recv_run E fdt_oracle rcfg recv0
+                         (map (fun p => RvPush p nowr)
+                              (skipn j (obj_wire rep raptor_src cfg m window1 closable1 debug1 content true)
+                               ++ pf :: obj_wire rep raptor_src cfg m window closable debug content fti)) ctx0 in
+    session_meta_delivered cfg complete now m content rcfg r cx.
+  Proof.
+    intros Hw1 Hw. destruct (obj_wire_facts window1 closable1 debug1 true Hw1) as (_ & T & G & _).
+    cbv zeta in T, G. set (w1 := obj_wire rep raptor_src cfg m window1 closable1 debug1 content true) in *.
+    assert (Sub : forall P : apkt -> Prop, Forall P w1 -> Forall P (skipn j w1)).
+    { intros P F. rewrite <- (firstn_skipn j w1) in F. apply Forall_app in F. apply F. }
+    apply session_late_join_general_any_flag_before_fdt; [exact Hw|apply Sub; exact T|apply Sub; exact G|apply Sub].
+    unfold w1, obj_wire. apply Forall_forall. intros p Hp. apply in_map_iff in Hp. destruct Hp as (q & <- & Hq).
+    split; [reflexivity|].
+    unfold wire_pkts in Hq. apply in_map_iff in Hq. destruct Hq as (q0 & <- & _). reflexivity.
+  Qed.
 End Compose.
 
 Print Assumptions session_clean_channel.
+Print Assumptions session_late_join_general_any_flag_before_fdt.
+Print Assumptions session_late_join_any_flag_before_fdt.
 Print Assumptions session_late_join_general.
 Print Assumptions session_late_join.
 
@@ -799,6 +847,33 @@ Example exs_late_by_theorem j closable fti :
 Proof.
   exact (session_late_join no_rep no_rsrc exs_cfg false exs_now exs_m ex_content exs_env exs_rcfg
            exs_nowr 1 exs_sct exs_sender_ok exs_doc_fits exs_receiver_ok' 2 true j 2 closable true fti le_1_2 le_1_2).
+Qed.
+
+(* D44: the receiver joins at ANY offset j of the LAST transfer (in-band FTI, the close-object flag on its last packet:
+   the flag arrives BEFORE the FDT instance and is ignored), then the FDT packet, then a whole further transfer; and the
+   whole flagged transfer followed by the FDT packet alone - by computation (real XML bytes) and by the theorem *)
+Example exs_late_flag_before_fdt_computed :
+  map a_close_obj (exs_wire true) = [false; false; true]
+  /\ forallb (fun j => match exs_run (skipn j (map (add_fti ex_oti 5) (exs_wire true)) ++ exs_pf :: exs_wire false) with
+                       | (_, [], [7], [], l) => list_eqb (fun a b => match a, b with
+                                                                    | EvWrite _ x _, EvWrite _ y _ => eqb_bytes x y
+                                                                    | EvBuilder _ _, EvBuilder _ _ | EvOpen _ _, EvOpen _ _
+                                                                    | EvComplete _, EvComplete _ => true
+                                                                    | _, _ => false end) l exs_log
+                       | _ => false end) [0; 1; 2; 3; 4]%nat = true
+  /\ exs_run (map (add_fti ex_oti 5) (exs_wire true) ++ [exs_pf]) = ([POk; POk; POk; POk], [], [7], [], exs_log).
+Proof. vm_compute. repeat split. Qed.
+
+Example exs_late_flag_before_fdt_by_theorem j closable1 closable fti :
+  let '(_, r, cx) := recv_run exs_env fdt_oracle exs_rcfg recv0
+                       (map (fun p => RvPush p exs_nowr)
+                            (skipn j (obj_wire no_rep no_rsrc exs_cfg exs_m 2 closable1 true ex_content true)
+                             ++ sess_fdt_pkt exs_cfg false exs_now exs_m 1 exs_sct
+                                :: obj_wire no_rep no_rsrc exs_cfg exs_m 2 closable true ex_content fti)) ctx0 in
+  session_meta_delivered exs_cfg false exs_now exs_m ex_content exs_rcfg r cx.
+Proof.
+  exact (session_late_join_any_flag_before_fdt no_rep no_rsrc exs_cfg false exs_now exs_m ex_content exs_env exs_rcfg
+           exs_nowr 1 exs_sct exs_sender_ok exs_doc_fits exs_receiver_ok' 2 closable1 true j 2 closable true fti le_1_2 le_1_2).
 Qed.
 
 (* the expiry premise is needed, with the real document too: the receiver's clock (no EXT_TIME) one second past
